@@ -254,9 +254,9 @@ func extract(archName, path string) (res []disasm.Syscall, err error, pan any) {
 		}()
 		o.res, o.err = disasm.ExtractSyscalls(spec.ArchInfo(archName), path)
 	}()
-	// "terminates": a listing of this size is read in micro- to milliseconds (about 100 MB/s). The extraction gets 30 s plus
+	// "terminates": a listing of this size is read in micro- to milliseconds (about 100 MB/s). The extraction gets 6 s plus
 	// a second per 500 KB, and when that has passed twice as much again, before it is said not to terminate.
-	limit := 30 * time.Second
+	limit := 6 * time.Second
 	if fi, serr := os.Stat(path); serr == nil && fi.Mode().IsRegular() {
 		limit += time.Duration(fi.Size()/500000) * time.Second
 	}
